@@ -51,6 +51,38 @@ Section Read.
   (* Table: SkipEntry *)
   Definition skip_entry (r : R) : res unit R :=
     do sz, r <- read_u64 r; r_skip o sz r.
+
+  (* Table: ReadEntry for an active, still empty entry: size, then the value
+     through a BoundedReader of that size, then ReadPadding.  [rdb] is
+     Encoding<T>::Read instantiated at BoundedReader<Reader>. *)
+  Definition framed_read (rdb : Bounded R -> res val (Bounded R)) (r : R) : res val R :=
+    do sz, r <- read_u64 r;
+    match rdb (b_make r sz) with
+    | Ok v b =>
+        match bounded_read_padding o b with
+        | Ok _ b' => Ok v (b_inner b')
+        | Err e b' => Err e (b_inner b')
+        end
+    | Err e b => Err e (b_inner b)
+    end.
+
+  (* Table: ReadEntryForId over the declared entries (id, active, reader) *)
+  Fixpoint find_entry (id : N) (es : list (N * bool * (R -> res val R))) (slots : list val)
+           (r : R) {struct es} : res (list val) R :=
+    match es, slots with
+    | (eid, act, rd) :: es', sl :: slots' =>
+        if eid =? id then
+          if act then
+            match sl with
+            | VNone => do v, r <- rd r; Ok (VSome v :: slots') r
+            | _ => Err EDupEntry r
+            end
+          else
+            do _, r <- skip_entry r; Ok (sl :: slots') r
+        else
+          do rest, r <- find_entry id es' slots' r; Ok (sl :: rest) r
+    | _, _ => do _, r <- skip_entry r; Ok slots r
+    end.
 End Read.
 
 Definition unraw (w : nat) (sg : bool) (n : N) (bs : bytes) : list val :=
@@ -178,33 +210,16 @@ Fixpoint decp (t : ty) (p : N) (R : Type) (o : rops R) (r : R) {struct t} : res 
       do slots, r <- loop_res count
              (fun slots r =>
                 do id, r <- read_u64 o r;
-                (fix find (es : list (N * bool * ty)) (slots : list val) (r : R)
-                     {struct es} : res (list val) R :=
-                   match es, slots with
-                   | (eid, act, t') :: es', sl :: slots' =>
-                       if eid =? id then
-                         if act then
-                           match sl with
-                           | VNone =>
-                               do sz, r <- read_u64 o r;
-                               match dec_with (bounded_rops o) (tmatch t')
-                                       (fun p b => decp t' p (Bounded R) (bounded_rops o) b)
-                                       (b_make r sz) with
-                               | Ok v b =>
-                                   match bounded_read_padding o b with
-                                   | Ok _ b' => Ok (VSome v :: slots') (b_inner b')
-                                   | Err e b' => Err e (b_inner b')
-                                   end
-                               | Err e b => Err e (b_inner b)
-                               end
-                           | _ => Err EDupEntry r
-                           end
-                         else
-                           do _, r <- skip_entry o r; Ok (sl :: slots') r
-                       else
-                         do rest, r <- find es' slots' r; Ok (sl :: rest) r
-                   | _, _ => do _, r <- skip_entry o r; Ok slots r
-                   end) es slots r)
+                find_entry o id
+                  (map (fun e : N * bool * ty =>
+                          match e with
+                          | (eid, act, t') =>
+                              (eid, act,
+                               framed_read o
+                                 (dec_with (bounded_rops o) (tmatch t')
+                                    (fun p b => decp t' p (Bounded R) (bounded_rops o) b)))
+                          end) es)
+                  slots r)
              (map (fun _ => VNone) es) r;
       Ok (VTab slots) r
   end.
@@ -321,17 +336,27 @@ Definition seq_len_ok (c : seqc) (n : N) : bool :=
   | CLBuf _ cap _ unb => unb || (n <=? cap)
   end.
 
+(* a std::map / unordered_map holds each key once; the check mirrors the
+   test emplace performs when the map is read back *)
+Fixpoint keys_fresh (acc kvs : list (val * val)) : bool :=
+  match kvs with
+  | [] => true
+  | (k, x) :: r =>
+      negb (existsb (fun kv => val_eqb (fst kv) k) acc) && keys_fresh (acc ++ [(k, x)]) r
+  end.
+
 (* has_type: the values a C++ object of the described type can hold (a table
    entry's encoding is an in-memory object, hence shorter than 2^64 bytes) *)
 Fixpoint has_type (t : ty) (v : val) {struct t} : bool :=
   match t, v with
   | TScalar _ s, VInt z => scalar_ok s z
   | TStr cw, VSeq vs =>
+      (nlen vs * cw <? two64) &&
       forallb (fun x => match x with
                         | VInt z => (0 <=? z)%Z && (z <? 2 ^ (8 * Z.of_N cw))%Z
                         | _ => false end) vs
   | TSeq c t', VSeq vs =>
-      seq_len_ok c (N.of_nat (length vs)) && forallb (has_type t') vs
+      seq_len_ok c (nlen vs) && (nlen vs * 8 <? two64) && forallb (has_type t') vs
   | TTuple _ ts, VSeq vs =>
       (fix go (ts : list ty) (vs : list val) : bool :=
          match ts, vs with
@@ -341,6 +366,7 @@ Fixpoint has_type (t : ty) (v : val) {struct t} : bool :=
          end) ts vs
   | TWrap _ t', _ => has_type t' v
   | TMap _ kt vt, VMap kvs =>
+      (nlen kvs <? two64) && keys_fresh [] kvs &&
       forallb (fun kv => has_type kt (fst kv) && has_type vt (snd kv)) kvs
   | TOpt _, VNone => true
   | TOpt t', VSome x => has_type t' x
